@@ -152,6 +152,20 @@ def run_job(prop_id, job, tier, seed, replay_case=None, attempt=0):
             res["why"] = "unreadable result %s: %s" % (rf, e)
     got = {r["harness"] for r in res["results"]}
     missing = [h for h in job.get("expect", []) if h not in got]
+    # A part that recorded violations (each is written to its replay file at once) and then hung or died
+    # has no result file: salvage what it had already refuted.
+    for h in missing:
+        sv = []
+        for rp in sorted(glob.glob(os.path.join(outdir, "replay-%s-[0-9][0-9][0-9].json" % h))):
+            try:
+                d = json.load(open(rp))
+                sv.append({"key": d.get("key", "?"), "detail": d.get("detail", ""), "replay": rp})
+            except Exception:
+                pass
+        if sv:
+            res["results"].append({"property": prop_id, "harness": h, "tier": tier, "seed": seed, "evaluations": len(sv),
+                                   "distinct_nontrivial": 0, "samples": [], "counters": {"partial_result_salvaged": 1},
+                                   "violations": sv, "inconclusive": [], "wall_s": wall, "complete": False})
     if replay_case:
         missing = []
     build_failed = "[build failed]" in txt or "[setup failed]" in txt
@@ -369,7 +383,7 @@ def check_property(prop_id, tier, seed, replay=None):
 
     def one(job):
         r = run_job(prop_id, job, tier, seed, replay_case)
-        if r["status"] == "timeout":
+        if r["status"] == "timeout" and not any(x.get("violations") for x in r["results"]):
             log("  [%s/%s] watchdog fired after %.0fs: inconclusive, retrying once in a fresh process" % (prop_id, job["name"], r["wall_s"]))
             keep = r["log"] + ".first-attempt"
             shutil.copy(r["log"], keep)
